@@ -566,8 +566,9 @@ func genCase(rt *rapid.T) Case {
 func TestExhaustive(t *testing.T) { vstat.Enumerate(t, prop, enumerate, run) }
 func TestRandom(t *testing.T)     { vstat.Check(t, prop, genCase, run) }
 func TestReplay(t *testing.T) {
-	t.Run("TestExhaustive", func(t *testing.T) { vstat.Replay(t, prop, "TestExhaustive", run) })
-	t.Run("TestRandom", func(t *testing.T) { vstat.Replay(t, prop, "TestRandom", run) })
+	for _, name := range []string{"TestExhaustive", "TestRandom", "TestRegEmptyHashTakenAsEqual", "TestRegPositionInAlignmentRemainder", "TestRegHistoryBuiltIndexes"} {
+		t.Run(name, func(t *testing.T) { vstat.Replay(t, prop, name, run) })
+	}
 }
 
 // ---- regressions: minimised failures found by this package on the pinned tree ----------------
